@@ -142,7 +142,7 @@ def encode_frame(rng, specs, nasty):
     return gen._interleave(rng, per_lane), flags
 
 
-def build_stream(rng, layer, frames_words, fmt, version, split_prob):
+def build_stream(rng, layer, frames_words, fmt, version, split_prob, nodata_prob=0.0):
     """one link: HBFs of one or more data pages with the frames, then a stop page"""
     s = gen.Stream(version, fmt)
     group = None
@@ -161,8 +161,18 @@ def build_stream(rng, layer, frames_words, fmt, version, split_prob):
     words = [["IHW", its.ihw(0x0FFFFFFF)]]
     positions = []
     bc = 0
+    alt_positions = []      # earliest no-data TDH directly preceding the frame (the tool locates the frame there), else None
     for fi, dws in enumerate(frames_words):
         tt, internal = (ttype & 0xFFF, 1) if (fi == 0) else (0, 1)
+        alt = None
+        if nodata_prob and rng.random() < nodata_prob:
+            for _ in range(rng.choice([1, 2])):
+                if alt is None:
+                    alt = (len(pk), len(words))
+                words.append(["TDH", its.tdh(tt, internal, 1, 0, bc, orbit)])
+                tt = 0
+                bc = min(0xDEB, bc + 3)
+        alt_positions.append(alt)
         positions.append((len(pk), len(words)))
         words.append(["TDH", its.tdh(tt, internal, 0, 0, bc, orbit)])
         rest = list(dws)
@@ -182,6 +192,7 @@ def build_stream(rng, layer, frames_words, fmt, version, split_prob):
     pk.append(gen.Pkt(0, rdh(1), [["DDW", its.ddw0()]], 6 if fmt == 2 else 0))
     s.pkts = [pk]
     s.order = [(0, i) for i in range(len(pk))]
+    s.alt_positions = alt_positions
     return s, positions
 
 
@@ -223,6 +234,7 @@ def one_case(args):
         dead = dead + [i for i in announcing if i not in dead]
     fmt, version = rng.choice([0, 2]), rng.choice([6, 7])
     split = rng.choice([0.0, 0.0, 0.3])
+    nodata = rng.choice([0.0, 0.0, 0.5])      # frames preceded by no-data TDHs
     runs = []
     for variant in range(2):   # same skeleton, different hit content
         vr = rng_for(seed, case, 100 + variant)
@@ -232,7 +244,7 @@ def one_case(args):
             fw.append(w)
             allflags += fl
         srng = rng_for(seed, case, 7)   # identical page layout decisions for both variants where possible
-        s, positions = build_stream(srng, layer, fw, fmt, version, split)
+        s, positions = build_stream(srng, layer, fw, fmt, version, split, nodata)
         data = s.serialize()
         path = os.path.join(wd, "c%d_%d.raw" % (case, variant))
         write_file(path, data)
@@ -259,6 +271,11 @@ def one_case(args):
         for fi, (pi, wi) in enumerate(positions):
             off = s.pkts[0][pi].word_offsets[wi]
             fm = frame_messages(r, off)
+            alt = s.alt_positions[fi]
+            if alt is not None and not fm:
+                # a run of no-data TDHs precedes the frame: "from a non-continuation TDH" is satisfied by the first of them too
+                off = s.pkts[0][alt[0]].word_offsets[alt[1]]
+                fm = frame_messages(r, off)
             got = set(fm)
             t = truth[fi]
             want = set(t["codes"])
@@ -286,7 +303,7 @@ def one_case(args):
                         return bad("frame %d at 0x%X: inner codes %s, reference %s" % (fi, off, sorted(inner), sorted(t["inner"])), "frame:inner:%s" % t["kind"], variant)
             v.append(tuple(sorted(got)))
         # no frame-level message anywhere else
-        offs = set(s.pkts[0][pi].word_offsets[wi] for pi, wi in positions)
+        offs = set(s.pkts[0][pi].word_offsets[wi] for pi, wi in positions) | set(s.pkts[0][a[0]].word_offsets[a[1]] for a in s.alt_positions if a)
         stray = [m for m in r.reported() if m.code in ("74", "75", "701", "73") and m.offset not in offs]
         if stray:
             return bad("frame message at 0x%X, which is not the start of a frame: %s" % (stray[0].offset, stray[0].text[:80]), "frame:stray", variant)
@@ -320,5 +337,5 @@ def run(res):
                 "FATAL announcement) x random and header-like hit bytes, split over words/pages, 1..5 frames per stream, each stream encoded twice with different hits; "
                 "non-trivial = distinct (barrel, frame kind, expected code set)")
     res.min_nontrivial = 20 if res.tier == "quick" else 30
-    res.assumptions = ["frames are not preceded by no-data TDHs (frame start = its own TDH)", "a lane that announced FATAL does not send data afterwards",
+    res.assumptions = ["a frame preceded by a run of no-data TDHs may be located at the first TDH of that run or at its own TDH (both are non-continuation TDHs)", "a lane that announced FATAL does not send data afterwards",
                        "IHW announces all lanes active (word-level lane checks are C11's)"]
